@@ -94,7 +94,7 @@ fn expected_err(e: &ErrSpec) -> (Kind, Option<String>) {
 pub fn request_classes() -> Vec<(String, Dims)> {
     let mut out = Vec::new();
     for (qc, token) in [(false, 0u8), (true, 0), (false, 1), (true, 1)] {
-        let z = Dims { query_carrier: qc, path: 0, query: 0, carrier: 0, alg: 0, syntax: 0, missing: 0, reqs: 0, date: 0, cred: 0, provider: 0, sig: 0, token };
+        let z = Dims { query_carrier: qc, path: 0, query: 0, carrier: 0, alg: 0, syntax: 0, missing: 0, reqs: 0, date: 0, cred: 0, provider: 0, sig: 0, token, form: 0 };
         let c = match (qc, token) {
             (false, 0) => "header",
             (true, 0) => "query",
@@ -120,6 +120,11 @@ pub fn request_classes() -> Vec<(String, Dims)> {
         out.push((format!("{}:arity", c), Dims { cred: 1, ..z }));
         out.push((format!("{}:scope", c), Dims { cred: 3, ..z }));
         out.push((format!("{}:wrong-signature", c), Dims { sig: 1, ..z }));
+        // a form body that the server folds into the query (the request is taken apart and rebuilt first)
+        out.push((format!("{}:folded-form-valid", c), Dims { form: 1, ..z }));
+        out.push((format!("{}:folded-form-wrong-signature", c), Dims { form: 1, sig: 1, ..z }));
+        out.push((format!("{}:folded-form-expired", c), Dims { form: 1, date: 2, ..z }));
+        out.push((format!("{}:folded-form-scope", c), Dims { form: 1, cred: 3, ..z }));
     }
     out
 }
@@ -284,7 +289,7 @@ struct Step {
 }
 
 fn history_alphabet(thorough: bool) -> Vec<Step> {
-    let z = Dims { query_carrier: false, path: 0, query: 0, carrier: 0, alg: 0, syntax: 0, missing: 0, reqs: 0, date: 0, cred: 0, provider: 0, sig: 0, token: 0 };
+    let z = Dims { query_carrier: false, path: 0, query: 0, carrier: 0, alg: 0, syntax: 0, missing: 0, reqs: 0, date: 0, cred: 0, provider: 0, sig: 0, token: 0, form: 0 };
     let reqs: Vec<(&'static str, Dims, bool)> = vec![
         ("valid", z, false),
         ("valid-query", Dims { query_carrier: true, ..z }, false),
@@ -440,7 +445,7 @@ pub fn run(ctx: &Ctx) -> Report {
             }
         };
         let mut svc = scratchstack_aws_signature::service_for_signing_key_fn(lookup);
-        let z = Dims { query_carrier: false, path: 0, query: 0, carrier: 0, alg: 0, syntax: 0, missing: 0, reqs: 0, date: 0, cred: 0, provider: 0, sig: 0, token: 0 };
+        let z = Dims { query_carrier: false, path: 0, query: 0, carrier: 0, alg: 0, syntax: 0, missing: 0, reqs: 0, date: 0, cred: 0, provider: 0, sig: 0, token: 0, form: 0 };
         let seq: Vec<(&str, Dims, usize, bool)> = vec![
             ("valid", z, 1, true),
             ("expired", Dims { date: 2, ..z }, 0, false),
@@ -483,7 +488,7 @@ pub fn run(ctx: &Ctx) -> Report {
     Report {
         stats: st,
         rule: format!(
-            "(1) {} request classes (one per stage of the documented order on each carrier, plus valid and wrong signature) x {} provider behaviours: poll_ready answers Pending k times (k <= {p}) then Ready or one of 16 errors (13 SignatureError shapes, io::Error, String, private type); the call's future is Pending j times (j <= {p}) then the correct key, a wrong key or one of the 16 errors. Invariants on every execution: call only after Ready, at most once; requests failing an earlier rule never touch the provider and their error does not depend on it; a SignatureError from the provider comes back with the same kind, code, status and message, any other error as InternalServiceError/500; no provider error or wrong key ends in Ok; the validation future is polled at least 1+k+j times (a Pending is never taken as an answer). (2) every sequence of 1..{} validations over {} (request, behaviour) symbols on ONE provider instance (key rotation correct->wrong->correct, errors, delays): each step's outcome and provider-call count equal what the model says for that step alone (incl. a valid request presented to a validation configured for another service right after it was accepted for its own). (3) a history of 18 validations through the crate's own adapter service_for_signing_key_fn with an invocation counter. states = distinct (class, outcome, provider log length) and distinct history outcome vectors",
+            "(1) {} request classes (one per stage of the documented order on each carrier, plus valid and wrong signature, with and without a session token, and four classes with a folded form body) x {} provider behaviours: poll_ready answers Pending k times (k <= {p}) then Ready or one of 16 errors (13 SignatureError shapes, io::Error, String, private type); the call's future is Pending j times (j <= {p}) then the correct key, a wrong key or one of the 16 errors. Invariants on every execution: call only after Ready, at most once; requests failing an earlier rule never touch the provider and their error does not depend on it; a SignatureError from the provider comes back with the same kind, code, status and message, any other error as InternalServiceError/500; no provider error or wrong key ends in Ok; the validation future is polled at least 1+k+j times (a Pending is never taken as an answer). (2) every sequence of 1..{} validations over {} (request, behaviour) symbols on ONE provider instance (key rotation correct->wrong->correct, errors, delays): each step's outcome and provider-call count equal what the model says for that step alone (incl. a valid request presented to a validation configured for another service right after it was accepted for its own). (3) a history of 18 validations through the crate's own adapter service_for_signing_key_fn with an invocation counter. states = distinct (class, outcome, provider log length) and distinct history outcome vectors",
             classes.len(), nb, depth, k, p = max_pending
         ),
         bounds: json!({"max_pending": max_pending, "history_depth": depth, "history_alphabet": k, "executions": total, "histories": nh}),
